@@ -46,6 +46,12 @@ CLAIMED = {
  "C13": ("exploration", "multi-representation differential on the real loaders and compiler",
          "Each of 4e2/6e3 abstract specs is rendered into 36 variants (Go structures, JSON, YAML via jsccast/yaml, sio's file-URL loader for YAML and JSON, sio's inline loader) x (inline patterns, JSON-text patterns) x (compiled once, three times, compiled-serialised-reloaded-compiled); all must compile and give identical traces on shared message sequences incl. scalar messages; three negative mutations (unknown interpreter, pattern syntax, branching type) must fail at Compile; no compiled variant may report a compilation problem at run time.",
          "Deterministic specs; YAML renderer emits the lower-cased keys the hosts' loaders use.", "DESIGN.md §4 C13"),
+ "C19": ("exploration", "reference verdict model over a fully controlled output stream (cat subprocess)",
+         "1.5e3/2e4 generated sessions (1-3 steps, expected and inverted outputs, guards) are run with /bin/cat as the subprocess so the emitted stream is exactly the inputs; whenever Run returns nil the reference window model must justify a pass under some resolution. Soundness direction only.",
+         "The reference is at least as permissive as the documentation; wall-clock load can only turn a pass into a failure.", "DESIGN.md §4 C19"),
+ "C20": ("exploration", "parse-back comparators (DOT tokenizer, Mermaid flowchart parser, reference graph analysis)",
+         "For 6e3/1e5 generated specs in two separately judged strata (identifier-like and hostile node names), tools.Analyze is compared with a reference graph analysis and the outputs of tools.Dot and tools.Mermaid are tokenised the way Graphviz / Mermaid read them and their node and edge multisets compared with the spec graph; panics and errors are violations.",
+         "DOT / Mermaid subsets as emitted by the tools; an empty target may or may not also be listed as missing.", "DESIGN.md §4 C20"),
 }
 
 NOT_YET = "check not built yet in this session (planned: see DESIGN.md §4)"
